@@ -361,5 +361,315 @@ theorem PExpr.parse {its e} (h : PExpr 0 its e []) : prattParse its = some e := 
   unfold prattParse
   rw [h.run (2 * its.length + 2) (by simp only [List.length_nil]; omega)]
 
+/-! ### (4) the main lemma -/
+
+/-- what the context `(rbp, rest)` must satisfy for `items e ++ rest`, parsed with `rbp`,
+    to reach the loop state `lhs = e` / remaining input `rest`:
+    * a binary `e` must bind tighter than the context on the left (`rbp < bp op`, the
+      `topBp` constraint) and the next pair must not be captured by its right operand
+      (`lbp rest ≤ rbpR op`, the `tailBp` constraint);
+    * a prefix `e` must not be followed by a postfix operator (`lbp rest ≤ P - 1`);
+    * postfix chains and primaries: no constraint. -/
+def Fits (e : Expr) (rbp : Nat) (rest : List PItem) : Prop :=
+  match e with
+  | .bin op _ _ => rbp < bp op ∧ ∃ n, lbp rest = some n ∧ n ≤ rbpR op
+  | .un _ _ => ∃ n, lbp rest = some n ∧ n ≤ P - 1
+  | _ => True
+
+theorem rbpR_le (op : BinOp) : rbpR op ≤ bp op := by unfold rbpR; split <;> omega
+theorem rbpR_ge (op : BinOp) : bp op - 1 ≤ rbpR op := by unfold rbpR; split <;> omega
+theorem rbpR_le_P (op : BinOp) : rbpR op ≤ P - 1 := by
+  have := rbpR_le op; have := bp_lt_P op; omega
+
+/-! unfolding of `needsParens` (its equation lemmas are not generated automatically) -/
+theorem np_left (cop pop : BinOp) (a b : Expr) :
+    needsParens (.bin cop a b) (.binLeft pop) =
+      (endsOpen (.bin cop a b) ||
+        (decide (pp cop < pp pop) || (pp cop == pp pop && ra pop))) := by
+  unfold needsParens; dsimp only
+theorem np_right (cop pop : BinOp) (a b : Expr) :
+    needsParens (.bin cop a b) (.binRight pop) =
+      (decide (pp cop < pp pop) || (pp cop == pp pop && !ra pop)) := by
+  unfold needsParens; simp only [Bool.false_or]
+theorem np_bin_prefix (cop : BinOp) (a b : Expr) :
+    needsParens (.bin cop a b) .prefix_ = true := rfl
+theorem np_bin_postfix (cop : BinOp) (a b : Expr) :
+    needsParens (.bin cop a b) .postfix_ = true := by simp [needsParens.eq_def]
+theorem np_un_postfix (o : UnOp) (a : Expr) :
+    needsParens (.un o a) .postfix_ = true := by simp [needsParens.eq_def]
+
+/-- what `needsParens = false` says about a binary child on the left -/
+theorem left_noparens {op lop : BinOp} {a b : Expr}
+    (h : needsParens (.bin lop a b) (.binLeft op) = false) :
+    bp op ≤ bp lop ∧ (bp lop = bp op → ra op = false ∧ ra lop = false) := by
+  simp only [np_left, Bool.or_eq_false_iff, Bool.and_eq_false_iff, decide_eq_false_iff_not,
+    beq_eq_false_iff_ne, ne_eq] at h
+  obtain ⟨_, h1, h2⟩ := h
+  have hlt := pp_lt_iff lop op
+  have heq := pp_eq_iff lop op
+  refine ⟨by have := mt hlt.mpr h1; omega, fun he => ?_⟩
+  have hpe := heq.mpr he
+  have hra : ra op = false := by
+    rcases h2 with h2 | h2
+    · exact absurd hpe h2
+    · simpa using h2
+  exact ⟨hra, (ra_eq_of_pp_eq lop op hpe).trans hra⟩
+
+/-- … and on the right -/
+theorem right_noparens {op rop : BinOp} {a b : Expr}
+    (h : needsParens (.bin rop a b) (.binRight op) = false) :
+    bp op ≤ bp rop ∧ (bp rop = bp op → ra op = true ∧ ra rop = true) := by
+  simp only [np_right, Bool.or_eq_false_iff, Bool.and_eq_false_iff, decide_eq_false_iff_not,
+    beq_eq_false_iff_ne, ne_eq] at h
+  obtain ⟨h1, h2⟩ := h
+  have hlt := pp_lt_iff rop op
+  have heq := pp_eq_iff rop op
+  refine ⟨by have := mt hlt.mpr h1; omega, fun he => ?_⟩
+  have hpe := heq.mpr he
+  have hra : ra op = true := by
+    rcases h2 with h2 | h2
+    · exact absurd hpe h2
+    · simpa using h2
+  exact ⟨hra, (ra_eq_of_pp_eq rop op hpe).trans hra⟩
+
+theorem fits_left {op : BinOp} {l : Expr} {rbp : Nat} (rest : List PItem)
+    (h : needsParens l (.binLeft op) = false) (hr : rbp < bp op) :
+    Fits l rbp (.inf (ruleOf op) :: rest) := by
+  cases l with
+  | bin lop a b =>
+    obtain ⟨h1, h2⟩ := left_noparens h
+    refine ⟨by omega, bp op, lbp_inf op rest, ?_⟩
+    by_cases he : bp lop = bp op
+    · have := (h2 he).2
+      simp only [rbpR, this]; simp; omega
+    · have := rbpR_ge lop; omega
+  | un o c => exact ⟨bp op, lbp_inf op rest, by have := bp_lt_P op; omega⟩
+  | _ => trivial
+
+theorem fits_right {op : BinOp} {r : Expr} {rest : List PItem} {n : Nat}
+    (h : needsParens r (.binRight op) = false) (hl : lbp rest = some n) (hn : n ≤ rbpR op) :
+    Fits r (rbpR op) rest := by
+  cases r with
+  | bin rop a b =>
+    obtain ⟨h1, h2⟩ := right_noparens h
+    by_cases he : bp rop = bp op
+    · obtain ⟨h3, h4⟩ := h2 he
+      have hp := bp_pos op
+      refine ⟨?_, n, hl, ?_⟩
+      · simp only [rbpR, h3]; simp; omega
+      · simp only [rbpR, h3, h4] at hn ⊢; simp at hn ⊢; omega
+    · have := rbpR_ge rop; have := rbpR_le op
+      exact ⟨by omega, n, hl, by omega⟩
+  | un o c => exact ⟨n, hl, by have := rbpR_le_P op; omega⟩
+  | _ => trivial
+
+theorem fits_prefix {c : Expr} {rest : List PItem} {n : Nat}
+    (h : needsParens c .prefix_ = false) (hl : lbp rest = some n) (hn : n ≤ P - 1) :
+    Fits c (P - 1) rest := by
+  cases c with
+  | bin cop a b => simp [np_bin_prefix] at h
+  | un o c => exact ⟨n, hl, hn⟩
+  | _ => trivial
+
+theorem fits_postfix {c : Expr} {rbp : Nat} {rest : List PItem}
+    (h : needsParens c .postfix_ = false) : Fits c rbp rest := by
+  cases c with
+  | bin cop a b => simp [np_bin_postfix] at h
+  | un o c => simp [np_un_postfix] at h
+  | _ => trivial
+
+/-- the statement proved for every operand by induction -/
+def Parses (e : Expr) : Prop :=
+  ∀ rbp rest, rbp ≤ P - 1 → Fits e rbp rest →
+    ∀ e' rest', PLoop rbp e rest e' rest' → PExpr rbp (items e ++ rest) e' rest'
+
+theorem child_parse {c : Expr} (pos : Pos) (ih : Parses c) {rbp : Nat} {rest : List PItem}
+    (hr : rbp ≤ P - 1) (hfit : needsParens c pos = false → Fits c rbp rest)
+    {e' : Expr} {rest' : List PItem} (hk : PLoop rbp c rest e' rest') :
+    PExpr rbp (child c pos ++ rest) e' rest' := by
+  unfold child
+  cases h : needsParens c pos
+  · simpa using ih rbp rest hr (hfit h) e' rest' hk
+  · simpa using PExpr.prim hk
+
+theorem parses_bin {op : BinOp} {l r : Expr} (ihl : Parses l) (ihr : Parses r) :
+    Parses (.bin op l r) := by
+  intro rbp rest hr hfit e' rest' hk
+  obtain ⟨hlt, n, hl, hn⟩ := hfit
+  rw [items_bin, List.append_assoc, List.cons_append]
+  -- left operand, then the loop sees the operator
+  apply child_parse (.binLeft op) ihl hr (fun h => fits_left _ h hlt)
+  -- right operand with `rbpR op`; its loop stops at `rest`
+  have hrhs : PExpr (rbpR op) (child r (.binRight op) ++ rest) r rest :=
+    child_parse (.binRight op) ihr (rbpR_le_P op) (fun h => fits_right h hl hn)
+      (PLoop.stop hl (by omega))
+  have hm := mapInfix_ruleOf op l r
+  have ho := opLookup_ruleOf op
+  cases hra : ra op
+  · simp only [rbpR, hra] at hrhs ho
+    exact PLoop.infL (lbp_inf op _) hlt ho hrhs hm hk
+  · simp only [rbpR, hra] at hrhs ho
+    exact PLoop.infR (lbp_inf op _) hlt ho hrhs hm hk
+
+theorem parses_un {op : UnOp} {c : Expr} (hop : op ≠ .invert) (ih : Parses c) :
+    Parses (.un op c) := by
+  intro rbp rest hr hfit e' rest' hk
+  obtain ⟨n, hl, hn⟩ := hfit
+  rw [items_un, List.cons_append]
+  have hrhs : PExpr (P - 1) (child c .prefix_ ++ rest) c rest :=
+    child_parse .prefix_ ih (Nat.le_refl _) (fun h => fits_prefix h hl hn)
+      (PLoop.stop hl (by omega))
+  cases op with
+  | negate => exact PExpr.pre opLookup_negation hrhs rfl hk
+  | not => exact PExpr.pre opLookup_invert hrhs rfl hk
+  | invert => exact absurd rfl hop
+
+theorem parses_fact {c : Expr} (ih : Parses c) : Parses (.fact c) := by
+  intro rbp rest hr _ e' rest' hk
+  rw [items_fact, List.append_assoc, List.singleton_append]
+  exact child_parse .postfix_ ih hr (fun h => fits_postfix h)
+    (PLoop.fact (lbp_postFact rest) (by have := P_le_fact; omega) hk)
+
+theorem parses_access {c i : Expr} (ih : Parses c) : Parses (.access c i) := by
+  intro rbp rest hr _ e' rest' hk
+  rw [items_access, List.append_assoc, List.singleton_append]
+  exact child_parse .postfix_ ih hr (fun h => fits_postfix h)
+    (PLoop.access (lbp_postAccess i rest) (by have := P_le_access; omega) hk)
+
+theorem parses_dot {c : Expr} {f : String} (ih : Parses c) : Parses (.dot c f) := by
+  intro rbp rest hr _ e' rest' hk
+  rw [items_dot, List.append_assoc, List.singleton_append]
+  exact child_parse .postfix_ ih hr (fun h => fits_postfix h)
+    (PLoop.dot (lbp_postDot f rest) (by have := P_le_dot; omega) hk)
+
+theorem parses_call {c : Expr} {a : List Expr} (ih : Parses c) : Parses (.call c a) := by
+  intro rbp rest hr _ e' rest' hk
+  rw [items_call, List.append_assoc, List.singleton_append]
+  exact child_parse .postfix_ ih hr (fun h => fits_postfix h)
+    (PLoop.call (lbp_postCall a rest) (by have := P_le_call; omega) hk)
+
+theorem parses_prim {e : Expr} (h : isCompound e = false) : Parses e := by
+  intro rbp rest _ _ e' rest' hk
+  rw [items_prim h]
+  exact PExpr.prim hk
+
+/-- MAIN LEMMA, by structural induction on the tree -/
+theorem items_parse : ∀ (e : Expr), NoInvert e → Parses e
+  | .bin op l r, h => by
+    simp only [NoInvert, noInvert, Bool.and_eq_true] at h
+    exact parses_bin (items_parse l h.1) (items_parse r h.2)
+  | .un op c, h => by
+    simp only [NoInvert, noInvert, Bool.and_eq_true, bne_iff_ne, ne_eq] at h
+    exact parses_un h.1 (items_parse c h.2)
+  | .fact c, h => parses_fact (items_parse c (by simpa [NoInvert, noInvert] using h))
+  | .access c i, h => parses_access (items_parse c (by simpa [NoInvert, noInvert] using h))
+  | .dot c f, h => parses_dot (items_parse c (by simpa [NoInvert, noInvert] using h))
+  | .call c a, h => parses_call (items_parse c (by simpa [NoInvert, noInvert] using h))
+  | .num _, _ | .str _, _ | .bool _, _ | .null, _ | .ident _, _ | .inref _, _ | .builtin _, _
+  | .list _, _ | .record _, _ | .lambda _ _, _ | .cond _ _ _, _ | .doBlock _ _, _
+  | .assign _ _, _ | .output _, _ | .spread _, _ => parses_prim rfl
+
+/-- round trip at the relational level -/
+theorem items_PExpr (e : Expr) (h : NoInvert e) : PExpr 0 (items e) e [] := by
+  have hfit : Fits e 0 [] := by
+    cases e with
+    | bin op l r => exact ⟨bp_pos op, 0, rfl, Nat.zero_le _⟩
+    | un o c => exact ⟨0, rfl, Nat.zero_le _⟩
+    | _ => trivial
+  simpa using items_parse e h 0 [] (Nat.zero_le _) hfit e [] (PLoop.stop lbp_nil (by omega))
+
+/-- fully parenthesised form: every operand is a primary, so no precedence reasoning at all.
+    (Only the top node matters: `.un .invert` has no prefix rule.) -/
+theorem itemsFull_PExpr (e : Expr) (h : ∀ c, e ≠ .un .invert c) : PExpr 0 (itemsFull e) e [] := by
+  have stop : ∀ (rbp : Nat) (x : Expr), PLoop rbp x [] x [] :=
+    fun rbp x => PLoop.stop lbp_nil (Nat.not_lt_zero _)
+  cases e with
+  | bin op l r =>
+    have e1 : itemsFull (.bin op l r) = [.prim l, .inf (ruleOf op), .prim r] := by
+      simp [itemsFull, itemsFull_child]
+    rw [e1]
+    have hm := mapInfix_ruleOf op l r
+    have ho := opLookup_ruleOf op
+    cases hra : ra op
+    · simp only [hra] at ho
+      exact .prim (.infL (lbp_inf op _) (bp_pos op) ho (.prim (stop _ _)) hm (stop _ _))
+    · simp only [hra] at ho
+      exact .prim (.infR (lbp_inf op _) (bp_pos op) ho (.prim (stop _ _)) hm (stop _ _))
+  | un op c =>
+    have e1 : itemsFull (.un op c) = [.pre (preRule op), .prim c] := by
+      simp [itemsFull, itemsFull_child]
+    rw [e1]
+    cases op with
+    | negate => exact .pre opLookup_negation (.prim (stop _ _)) rfl (stop _ _)
+    | not => exact .pre opLookup_invert (.prim (stop _ _)) rfl (stop _ _)
+    | invert => exact absurd rfl (h c)
+  | fact c =>
+    have e1 : itemsFull (.fact c) = [.prim c, .postFact] := by simp [itemsFull, itemsFull_child]
+    rw [e1]
+    exact .prim (.fact (lbp_postFact []) (by have := P_le_fact; omega) (stop _ _))
+  | access c i =>
+    have e1 : itemsFull (.access c i) = [.prim c, .postAccess i] := by
+      simp [itemsFull, itemsFull_child]
+    rw [e1]
+    exact .prim (.access (lbp_postAccess i []) (by have := P_le_access; omega) (stop _ _))
+  | dot c f =>
+    have e1 : itemsFull (.dot c f) = [.prim c, .postDot f] := by simp [itemsFull, itemsFull_child]
+    rw [e1]
+    exact .prim (.dot (lbp_postDot f []) (by have := P_le_dot; omega) (stop _ _))
+  | call c a =>
+    have e1 : itemsFull (.call c a) = [.prim c, .postCall a] := by simp [itemsFull, itemsFull_child]
+    rw [e1]
+    exact .prim (.call (lbp_postCall a []) (by have := P_le_call; omega) (stop _ _))
+  | _ => exact .prim (stop _ _)
+
+theorem NoInvert.top {e : Expr} (h : NoInvert e) : ∀ c, e ≠ .un .invert c := by
+  intro c hc; subst hc; simp [NoInvert, noInvert] at h
+
+/-! ### the documented precedence table -/
+
+/-- surface spelling of a grammar rule (`Gen.grammarLit`; the three postfix rules with a
+    payload have no single literal and keep their rule name) -/
+def spell (rule : String) : String :=
+  match Gen.grammarLit.find? (fun x => x.1 == rule) with
+  | some x => x.2
+  | none => rule
+
+/-- the documented levels, loosest first -/
+def documentedLevels : List (Affix × List String) := [
+  (.infixL, ["and", "or", "&&", "||", "via", "into", "where"]),
+  (.infixL, ["==", "!=", "<", "<=", ">", ">=", ".==", ".!=", ".<", ".<=", ".>", ".>="]),
+  (.infixL, ["+", "-"]),
+  (.infixL, ["*", "/", "%"]),
+  (.infixR, ["^"]),
+  (.infixL, ["??"]),
+  (.prefix_, ["-", "!", "not", "..."]),
+  (.postfix_, ["!"]),
+  (.postfix_, ["call_list", "access", "dot_access"])]
+
+/-- the distinct binding powers of the parser's operator map -/
+def distinctLevels : List Nat :=
+  prattOps.foldl (fun acc x => if acc.contains x.2.2 then acc else acc ++ [x.2.2]) []
+
+/-- rank of a binding power = number of distinct smaller binding powers in the map -/
+def rankOf (n : Nat) : Nat := (distinctLevels.filter (· < n)).length
+
+/-- the operator map with spelled rules and levels replaced by their rank -/
+def rankedOps : List (String × Affix × Nat) :=
+  prattOps.map fun x => (spell x.1, x.2.1, rankOf x.2.2)
+
+def documentedOps : List (String × Affix × Nat) :=
+  let rec go (ls : List (Affix × List String)) (i : Nat) : List (String × Affix × Nat) :=
+    match ls with
+    | [] => []
+    | (a, rules) :: rest => rules.map (fun r => (r, a, i)) ++ go rest (i + 1)
+  go documentedLevels 0
+
+/-- no rule registered twice (so "later insertions overwrite" never happens), and the
+    ranked operator map has exactly the documented entries -/
+def tableDocumented : Bool :=
+  decide (prattOps.map (·.1)).Nodup &&
+  rankedOps.all (fun x => documentedOps.contains x) &&
+  documentedOps.all (fun x => rankedOps.contains x)
+
 end PrattRT
 end Blots
